@@ -170,8 +170,10 @@ def run(prop, tier, replay=None):
         pl = plans(prop, tier)
         sf = prop == 'C16'
         pl = [(x + (None, None))[:7] for x in pl]
-        base_cases = [{'kind': k, 'persistent': p, 'ending': e, 'items': it, 'fault': 'none', 'stateful': sf, 'consumer': c, 'observe': o}
-                      for (k, p, e, it, f, c, o) in pl]
+        def gran(k):       # opcode-level landing points for thread workers in the thorough tier (C03's quantifier)
+            return 'opcode' if (tier == 'thorough' and k == 'thread' and prop in ('C01', 'C03')) else 'line'
+        base_cases = [{'kind': k, 'persistent': p, 'ending': e, 'items': it, 'fault': 'none', 'stateful': sf, 'consumer': c, 'observe': o,
+                       'granularity': gran(k)} for (k, p, e, it, f, c, o) in pl]
         for bc in base_cases:
             if bc['observe'] == 'slowfin':
                 bc['observe'] = None
@@ -201,7 +203,8 @@ def run(prop, tier, replay=None):
                     pts = inside[1:2] + (inside[3:4] if tier == 'thorough' else [])
                     extra = {'term_timeout': 6, 'remote_timeout': 4}
                 for n in pts:
-                    cases.append(dict({'kind': k, 'persistent': p, 'ending': e, 'items': it, 'fault': f, 'n': n, 'stateful': sf, 'consumer': cons}, **extra))
+                    cases.append(dict({'kind': k, 'persistent': p, 'ending': e, 'items': it, 'fault': f, 'n': n, 'stateful': sf, 'consumer': cons,
+                                       'granularity': gran(k)}, **extra))
         if prop == 'C01':
             for k in ('process', 'remote'):
                 cases.append({'kind': k, 'persistent': False, 'ending': 'big', 'items': 0, 'fault': 'bigkill'})
